@@ -192,10 +192,18 @@ func main() {
 		}
 		found := map[string]int{}
 		ast.Inspect(f, func(nd ast.Node) bool {
-			blk, ok := nd.(*ast.BlockStmt)
-			if !ok {
+			var list []ast.Stmt
+			switch b := nd.(type) {
+			case *ast.BlockStmt:
+				list = b.List
+			case *ast.CaseClause:
+				list = b.Body
+			case *ast.CommClause:
+				list = b.Body
+			default:
 				return true
 			}
+			blk := struct{ List []ast.Stmt }{list}
 			for i, s := range blk.List {
 				rs, ok := s.(*ast.RangeStmt)
 				if !ok {
@@ -204,6 +212,9 @@ func main() {
 				ex := render(rs.X)
 				kt, ok := want[ex]
 				if !ok {
+					continue
+				}
+				if rs.Key != nil && render(rs.Key) == "vndk" { // the key-collecting loop we generated ourselves
 					continue
 				}
 				found[ex]++
